@@ -6,6 +6,7 @@ import (
 	"math/rand"
 	"os"
 	"runtime"
+	"runtime/debug"
 	"testing/synctest"
 	"strings"
 	"testing"
@@ -128,7 +129,7 @@ func run(r *simkit.Run) {
 		}
 		for _, k := range points {
 			salt := uint64(r.C.Intn(1<<20, "fault-salt"))
-			s := &sim{r: r, wl: wl, quiet: true, plan: faultPlan{mode: fmFail, at: k, salt: salt, secondAt: -1}}
+			s := &sim{r: r, wl: wl, quiet: os.Getenv("STORESIM_VERBOSE") == "", plan: faultPlan{mode: fmFail, at: k, salt: salt, secondAt: -1}}
 			s.execute()
 			if s.fired {
 				fired++
@@ -156,7 +157,7 @@ func run(r *simkit.Run) {
 			if r.C.Bool(200, "second-crash") {
 				second = r.C.Intn(40, "second-crash-at")
 			}
-			s := &sim{r: r, wl: wl, quiet: true, plan: faultPlan{mode: fmCrash, at: k, salt: salt, crashMode: mode, secondAt: second}}
+			s := &sim{r: r, wl: wl, quiet: os.Getenv("STORESIM_VERBOSE") == "", plan: faultPlan{mode: fmCrash, at: k, salt: salt, crashMode: mode, secondAt: second}}
 			s.execute()
 			if s.fired {
 				fired++
@@ -225,6 +226,11 @@ func (s *sim) execute() {
 	}()
 	stopped := false
 	for s.stepIdx = 0; s.stepIdx < len(s.wl.steps) && !stopped; s.stepIdx++ {
+		if st := &s.wl.steps[s.stepIdx]; st.kind == stAdvance {
+			time.Sleep(st.adv) // not under the hang watchdog
+			s.event("advance", "%s", st.adv)
+			continue
+		}
 		stopped = s.guard(func() { s.runStep(&s.wl.steps[s.stepIdx]) })
 	}
 	if !stopped {
@@ -241,28 +247,94 @@ func (s *sim) execute() {
 // guard runs fn; a needRestart raised inside (the store refuses service after
 // an injected fault) leads to a restart of the store.  It reports whether the
 // execution has to stop.
+//
+// In fault-injecting executions fn runs on its own goroutine under a
+// simulated-time watchdog: after some injected errors goleveldb never releases
+// its writer lock again (OpenTransaction returns without unlocking when the
+// memdb flush fails), so that a later flush or Close blocks for ever.  A store
+// that hangs is abandoned (not closed) and the "process" restarted.
 func (s *sim) guard(fn func()) (stop bool) {
-	var nr *needRestart
-	func() {
+	type outcome struct {
+		nr    *needRestart
+		stop  bool
+		p     any
+		stack string
+	}
+	body := func() (o outcome) {
 		defer func() {
 			if p := recover(); p != nil {
-				if v, ok := p.(needRestart); ok {
-					nr = &v
-					return
+				switch v := p.(type) {
+				case needRestart:
+					o.nr = &v
+				case stopExec:
+					o.stop = true
+				default:
+					o.p = p
+					o.stack = string(debug.Stack())
 				}
-				if _, ok := p.(stopExec); ok {
-					stop = true
-					return
-				}
-				panic(p)
 			}
 		}()
 		fn()
-	}()
-	if nr != nil {
-		return !s.restartAfterFault(nr.why)
+		return
 	}
-	return stop
+	var o outcome
+	if s.plan.mode == fmNone {
+		o = body()
+	} else {
+		ch := make(chan outcome, 1)
+		go func() { ch <- body() }()
+		select {
+		case o = <-ch:
+		case <-time.After(6 * time.Hour):
+			s.r.Probe("store_hung_after_fault_abandoned")
+			s.r.Count("hangs_after_fault", 1)
+			if s.real != nil {
+				ffldb.VerifForget(s.real)
+				s.real = nil // abandoned, never closed: Close would block too
+			}
+			s.hung = true
+			if s.fs.Frozen() {
+				// hung while closing the store abandoned by the crash
+				return !s.afterHangCrash()
+			}
+			return !s.restartAfterFault("store hung")
+		}
+	}
+	if o.p != nil {
+		if fmt.Sprintf("%T", o.p) != "simkit.abortRun" && sutPanic(o.stack) {
+			s.r.Violate(prop, "no-panic", "", "panic in the store: %v\n%s", o.p, trim(o.stack, 3000))
+			return true
+		}
+		panic(o.p)
+	}
+	if o.nr != nil {
+		return !s.restartAfterFault(o.nr.why)
+	}
+	return o.stop
+}
+
+func trim(s string, n int) string {
+	if len(s) > n {
+		return s[:n]
+	}
+	return s
+}
+
+// sutPanic: the innermost non-runtime frame below the panic is repository or
+// goleveldb code.
+func sutPanic(stack string) bool {
+	seen := false
+	for _, l := range strings.Split(stack, "\n") {
+		if strings.HasPrefix(l, "panic(") {
+			seen = true
+			continue
+		}
+		if !seen || strings.HasPrefix(l, "\t") || l == "" || strings.HasPrefix(l, "runtime.") || strings.HasPrefix(l, "runtime/") {
+			continue
+		}
+		return strings.HasPrefix(l, "github.com/btcsuite/btcd") || strings.HasPrefix(l, "github.com/syndtr/goleveldb")
+	}
+	return false
 }
 
 // stopExec ends the current execution quietly (after a listed known finding
@@ -440,15 +512,27 @@ func (s *sim) openFailureKey(msg string) string {
 
 // recoverFromCrash is called with the disk frozen.
 func (s *sim) recoverFromCrash() {
-	r := s.r
-	hi := s.model.Commits()
-	lo := s.durable
-	crashedInCommit := s.commitBlocks && s.blockWrites > 0 && s.plan.at == s.firedPoint.Index
+	s.crashedInCommit = s.commitBlocks && s.blockWrites > 0 && s.plan.at == s.firedPoint.Index
 	if s.real != nil {
-		_ = s.real.Close() // all its I/O fails; lets its goroutines end
+		_ = s.real.Close() // all its I/O fails; lets its goroutines end (may hang: see guard)
 		ffldb.VerifForget(s.real)
 		s.real = nil
 	}
+	s.reopenAfterCrash()
+}
+
+// afterHangCrash continues the crash recovery when closing the abandoned store
+// hung.  It reports false when the execution should stop.
+func (s *sim) afterHangCrash() bool {
+	stop := s.guard(s.reopenAfterCrash)
+	return !stop
+}
+
+func (s *sim) reopenAfterCrash() {
+	r := s.r
+	hi := s.model.Commits()
+	lo := s.durable
+	crashedInCommit := s.crashedInCommit
 	before := map[string]int{}
 	for _, p := range s.fs.Paths() {
 		if strings.HasSuffix(p, ".fdb") {
@@ -470,6 +554,7 @@ func (s *sim) recoverFromCrash() {
 	lostLoose := rep.LostInLoose
 	if s.plan.secondAt >= 0 {
 		at := s.plan.secondAt
+		s.plan.secondAt = -1
 		image.SetInjector(func(p simfs.IOPoint) simfs.Decision {
 			if p.Index == at {
 				return simfs.Decision{Action: simfs.ActCrash}
@@ -558,7 +643,13 @@ func (s *sim) crashViolation(oracle string, lostLoose int, format string, args .
 
 // finish compares the final state live, then through a clean Close + Open.
 func (s *sim) finish() {
+	f0 := s.fired
 	d, err := s.dump(s.real)
+	if s.fired && !f0 {
+		// the injected fault hit this very dump: it was a read-only victim
+		s.handled, s.postFault = true, true
+		d, err = s.dump(s.real)
+	}
 	if err != nil {
 		if s.postFault {
 			panic(needRestart{why: "final dump: " + errCode(err)})
@@ -593,7 +684,12 @@ func (s *sim) finish() {
 	if s.real == nil {
 		return
 	}
+	f0 = s.fired
 	d, err = s.dump(s.real)
+	if s.fired && !f0 {
+		s.handled, s.postFault = true, true
+		d, err = s.dump(s.real)
+	}
 	if err != nil {
 		s.violate(s.laterOracle(), "", "dump after final reopen failed: %v", err)
 	}
